@@ -201,3 +201,11 @@ Definition c31_two_verdict (arr_a arr_b : list (list N)) (impl : list (list N * 
        (negb (batches_partition_b (concat arr_a) (map fst impl)
               && batches_partition_b (concat arr_b) (map snd impl)
               && Nat.eqb (length impl) (length arr_a))).
+
+(* tools/vlib.py coq_eval: indices and values of the non-zero verdict codes *)
+Fixpoint bad_from (n : N) (l : list N) : list (N * N) :=
+  match l with
+  | [] => []
+  | v :: r => if N.eqb v 0 then bad_from (n + 1) r else (n, v) :: bad_from (n + 1) r
+  end.
+Definition bad (l : list N) : list (N * N) := bad_from 0 l.
